@@ -46,6 +46,7 @@ func lawSig(src string, mode string, v lexh.LawViolation, toks []lexh.Tok) strin
 func kindOf(t lexh.Tok) string { return fmt.Sprintf("type%d", t.Ty) }
 
 func Run(c *vh.Ctx) {
+	defer lexh.RemoveLexDir()
 	var m *vh.Model
 	if c.ModelPath != "" {
 		var err error
